@@ -354,6 +354,15 @@ def selftest_recordings():
             return False
         return f
 
+    def lose_message(rep):
+        def f(r):
+            for x in r["facts"][rep]:
+                if x[4]:
+                    x[4] = ""
+                    return True
+            return False
+        return f
+
     def total_off(r):
         if r["info"]["libtest"]["suite"]["passed"] >= 0:
             r["info"]["libtest"]["suite"]["passed"] += 1
@@ -364,6 +373,9 @@ def selftest_recordings():
              lambda v: bool(v["bad"]))
         case("C14", f"{rep}-report-states-a-wrong-status", src, "Trace_Reporters.tla", "Trace_U.cfg",
              wrong_status(rep), lambda v: bool(v["bad"]))
+    for rep in ("basic", "libtest", "json", "junit"):
+        case("C14", f"{rep}-report-loses-a-failure-message", src, "Trace_Reporters.tla", "Trace_U.cfg",
+             lose_message(rep), lambda v: bool(v["bad"]))
     case("C14", "libtest-suite-total-off-by-one", src, "Trace_Reporters.tla", "Trace_U.cfg", total_off,
          lambda v: bool(v["bad"]))
 
